@@ -54,9 +54,20 @@ package atree
 //@   ensures err == nil && is(recv, *singleElement) ==> is(c, *singleElement)
 //@   modifies alloc
 
+//@ # a list of elements is copyable exactly when every element in it is (for a last-level list: every key and value)
+//@ pred elsCopyable(es elements) = ite(is(es, *hkeyElements), (forall k :: 0 <= k && k < len(as(es, *hkeyElements).elems) ==> ecopy(as(es, *hkeyElements).elems[k])),
+//@      (forall k :: 0 <= k && k < len(as(es, *singleElements).elems) ==> ccopy(as(es, *singleElements).elems[k].key) && ccopy(as(es, *singleElements).elems[k].value)))
 //@ iface elements.canCopyNonRefSimple() (ok)
 //@   conform all
 //@   serves C17
+//@   requires wfEls(recv)
+//@   ensures ok == elsCopyable(recv)
+//@   pure
+
+//@ # an inline collision group is copyable exactly when its element list is (it is NOT enough that the group itself is stored inline)
+//@ func (e *inlineCollisionGroup) canCopyNonRefSimple() (ok)  serves C17
+//@   requires e != nil && wfEls(e.elements)
+//@   ensures ok == elsCopyable(e.elements)
 //@   pure
 
 //@ # a reference to a separately stored collision group is never copyable: the copy would refer to the SAME slab, which would then be
@@ -179,7 +190,10 @@ package atree
 
 //@ func (m *MapDataSlab) canCopyWithoutSlabID() (ok)  serves C17
 //@   requires m.elements != nil
+//@   assume wfEls(m.elements) because "tree invariant: the element list of a leaf is well formed (C02)"
 //@   ensures m.next != SlabIDUndefined ==> !ok
+//@   # a leaf without a sibling is copyable exactly when all of its elements are (C17: the copy is offered exactly when ...)
+//@   ensures m.next == SlabIDUndefined ==> ok == elsCopyable(m.elements)
 //@   pure
 
 //@ # map leaf: the copy is a standalone root slab with the new id, a new element list, the source's first key, seed and count, a new
@@ -396,3 +410,37 @@ package atree
 //@        ite(is(root, *MapDataSlab), as(root, *MapDataSlab).extraData, as(root, *MapMetaDataSlab).extraData) == extraData && m.root == root
 //@   exit[C03 C08 C17] err == nil ==> has(stored, root) && sto[mhdrOf(root).slabID] == root
 //@   modifies heap, ghost.sto, ghost.issued, ghost.stored, ghost.touched, ghost.refusals, alloc
+
+//@ # ---- a new map (C02, C03, C04): an empty root leaf under a newly issued identifier of the requested owner, written back; the seed is
+//@ # the circle hash (seed 0) of two words read from that identifier, it is what the digester is seeded with and what the root records
+//@ func NewMap(storage, address, digestBuilder, typeInfo) (m, err)  serves C02 C03 C04 C18
+//@   requires storage != nil && digestBuilder != nil
+//@   before[C04] circlehash.Hash64Uint64x2: arg_seed == 0
+//@   before[C04] DigesterBuilder.SetSeed: arg_recv == digestBuilder && arg_k0 == k0 && arg_k1 == typicalRandomConstant && k0 == ch64x2(a, b, 0)
+//@   before[C03] storeSlab: arg_storage == storage && arg_slab == iface(root) && root.extraData == extraData && extraData.Seed == k0 && extraData.TypeInfo == typeInfo && extraData.Count == 0 &&
+//@        root.header.slabID == sID && sID.address == address && root.header.size == mapRootDataSlabPrefixSize + hkeyElementsPrefixSize && !root.inlined
+//@   ensures[C02] err == nil ==> m != nil && fresh(m) && m.Storage == storage && m.digesterBuilder == digestBuilder && is(m.root, *MapDataSlab) && fresh(as(m.root, *MapDataSlab)) &&
+//@        as(m.root, *MapDataSlab).extraData != nil && as(m.root, *MapDataSlab).extraData.Count == 0 && as(m.root, *MapDataSlab).extraData.TypeInfo == typeInfo
+//@   ensures[C03] err == nil ==> has(stored, m.root) && sto[as(m.root, *MapDataSlab).header.slabID] == m.root && as(m.root, *MapDataSlab).header.slabID.address == address
+//@   ensures[C18] err != nil ==> m == nil
+//@   modifies ghost.sto, ghost.issued, ghost.stored, ghost.touched, basicDigesterBuilder.k0, basicDigesterBuilder.k1, alloc
+
+//@ # re-opening a map: the root must be a stored map slab that carries extra data; the digester is seeded with the recorded seed
+//@ func NewMapWithRootID(storage, rootID, digestBuilder) (m, err)  serves C02 C03 C04 C18
+//@   requires storage != nil && digestBuilder != nil
+//@   before[C03] getMapSlab: arg_storage == storage && arg_id == rootID && rootID != SlabIDUndefined
+//@   before[C04] DigesterBuilder.SetSeed: arg_recv == digestBuilder && arg_k0 == extraData.Seed && arg_k1 == typicalRandomConstant && extraData != nil &&
+//@        extraData == ite(is(root, *MapDataSlab), as(root, *MapDataSlab).extraData, as(root, *MapMetaDataSlab).extraData)
+//@   ensures[C02] err == nil ==> m != nil && fresh(m) && m.Storage == storage && m.digesterBuilder == digestBuilder && m.root == sto[rootID] && isMapSlab(m.root) && mapExtra(m) != nil
+//@   ensures[C18] rootID == SlabIDUndefined ==> err != nil
+//@   ensures[C18] err != nil ==> m == nil
+//@   modifies basicDigesterBuilder.k0, basicDigesterBuilder.k1, alloc
+
+//@ # re-opening an array: the root must be a stored array slab that carries extra data
+//@ func NewArrayWithRootID(storage, rootID) (a, err)  serves C01 C03 C18
+//@   requires storage != nil
+//@   before[C03] getArraySlab: arg_storage == storage && arg_id == rootID && rootID != SlabIDUndefined
+//@   ensures[C01] err == nil ==> a != nil && fresh(a) && a.Storage == storage && a.root == sto[rootID] && isArr(a.root) && arrExtra(a) != nil
+//@   ensures[C18] rootID == SlabIDUndefined ==> err != nil
+//@   ensures[C18] err != nil ==> a == nil
+//@   modifies alloc
